@@ -395,6 +395,16 @@ def query_ops_for(paths_texts, names):
     return ops
 
 
+def broken_round(texts):
+    paths = list(texts)
+    p0 = next((p for p in paths if p.endswith("conftest.py")), paths[0])
+    ops = [{"op": "analyze", "path": p0, "text": texts[p0] + "\n\ndef broken(:\n    pass\n"}]
+    ops += [q for q in query_ops_for(texts, ["n", "w", "x"])
+            if q["op"] in ("goto", "goto_or_def", "available", "imported", "is_imported", "completion_ctx", "refs_at", "undeclared", "cycles")]
+    ops.append({"op": "analyze", "path": p0, "text": texts[p0]})
+    return ops
+
+
 def import_graph_cases():
     """every import graph over three helper modules (incl. self loops, cycles, diamonds), star / plugins"""
     import itertools
@@ -477,7 +487,10 @@ def check_c12(tier):
                                       [{"op": "analyze", "path": p, "text": t} for p, t in list(texts.items())[:2]] +
                                       [{"op": "analyze", "path": p, "text": t, "fresh": True} for p, t in list(texts.items())[:1]] +
                                       # a second round after the re-analysis (stale-cache branches of the memoised queries)
-                                      [q for q in query_ops_for(texts, ["n", "w", "x"]) if q["op"] in ("goto", "available", "imported", "cycles", "is_imported")]],
+                                      [q for q in query_ops_for(texts, ["n", "w", "x"]) if q["op"] in ("goto", "available", "imported", "cycles", "is_imported")] +
+                                      # a third round while a conftest (else the first file) holds UNPARSABLE text: the parse-failure
+                                      # branches of every cached step (AST cache, line index, imported-fixture cache) under the lock tracer
+                                      broken_round(texts)],
                           "schedule": [], "post": []})
             info[cid] = ("layout", case["shape"], one)
     graphs = import_graph_cases()
